@@ -50,6 +50,10 @@ MAX_PATHS = 6000
 MAX_INLINE = 4
 
 
+def _erase_lt(t):
+    return re.sub(r"'[a-z_][a-z_0-9]*\s*(,\s*)?", "", t or "").replace("<>", "")
+
+
 class TooManyPaths(Exception):
     pass
 
@@ -184,7 +188,10 @@ class Sym:
         self.notes = []
         self.applying = 0
         self.closures = {}     # closure site -> (node, captured env, frames)
+        self.visitor_calls = False   # expand `deserializer.deserialize_seq(V)` into V::visit_seq (see do_call)
+        self.handed = set()    # closures passed to a helper that was expanded in place (their creation event was dropped)
         self.frame_call = {}   # frame id of an expanded helper -> (call node, helper)
+        self.call_parent = {}  # frame id of an expanded call -> frame id of the body the call is written in
         self.frame_parent = {} # frame id of a closure body -> frame id of the function it is written in
         self.arith = {}        # span of a + - * node -> set of (op, left term, right term) seen on the paths
         self.indexed = {}      # span of an index node -> set of (length of the indexed array literal/constant or None, index term)
@@ -697,7 +704,16 @@ class Sym:
                 return [(st, ("fn", split_generic(out_ty)[0], "ctor"))]
             return [(st, ("ctor", split_generic(ty)[0], ()))]
         if rk in ("Fn", "AssocFn"):
-            return [(st, ("fn", r.get("path")))]
+            path = r.get("path")
+            if rk == "AssocFn" and path not in self.F.fns_by_path:
+                # a trait method named as a value (`.map(From::from)`): the function item's type names the impl it resolves to
+                m = re.search(r"\{(<.+>)::([A-Za-z_0-9]+)\}$", n.get("ty") or "")
+                if m:
+                    want = _erase_lt(m.group(1))
+                    cands = [f for f in self.F.fns if f["name"] == m.group(2) and _erase_lt((f.get("impl") or {}).get("trait_ref") or "") == want]
+                    if len(cands) == 1:
+                        path = cands[0]["path"]
+            return [(st, ("fn", path))]
         if rk.startswith("Static"):
             return [(st, ("static", r.get("path")))]
         return [(st, ("path", r.get("path") or rk))]
@@ -1259,6 +1275,9 @@ class Sym:
     def ev_call(self, n, st):
         if "ctor" in n:
             cpath = n["ctor"][5:] if n["ctor"].startswith("Self:") else n["ctor"]
+            if n["ctor"].startswith("Self:") and cpath.startswith("<"):
+                # `Self(..)` inside a trait impl: the driver names the impl, the value's type names the struct
+                cpath = split_generic(re.sub(r"<'[a-z_]+(, )?", "<", n.get("ty") or ""))[0] or cpath
             return [(s, None if s.done is not None else ("ctor", cpath, tuple(ts))) for s, ts in self.ev_seq(n["args"], st)]
         f = H.strip(n["f"])
         nodes = list(n["args"])
@@ -1585,6 +1604,20 @@ class Sym:
                 self.add_effect(st, "call", callee, args, n, None)
             st.done = ("panic", n.get("sp"), callee or trait_callee or "diverges")      # panic!/unreachable!/process::abort ..
             return [(st, None)]
+        if self.visitor_calls and trait_callee == "serde_core::de::Deserializer::deserialize_seq" and len(args) == 2 and args[1] is not None and args[1][0] in ("ctor", "struct"):
+            # serde's contract for `deserializer.deserialize_seq(visitor)`: the input is a sequence and the result is
+            # visitor.visit_seq(<its elements>), or it is not and the call fails without the visitor having been consulted
+            # (a visitor that only defines visit_seq rejects every other shape through the default methods).  Enabled by the
+            # checks that audit a visitor from the decoder that creates it.
+            vty = args[1][1]
+            meths = [g for g in self.F.fns if (g.get("impl") or {}).get("trait") == "serde_core::de::Visitor" and (g["impl"]["self_ty"].get("path") or split_generic(g["impl"]["self_ty"].get("s") or "")[0]) == vty]
+            vs = [g for g in meths if g["name"] == "visit_seq" and g.get("body") is not None]
+            if len(vs) == 1 and all(g["name"] in ("visit_seq", "expecting") for g in meths) and len(st.frames) <= self.max_inline:
+                s_err = st.fork()
+                s_err.trace = s_err.trace + (("visitor-rejected", site),)
+                out = [(s_err, ("ctor", ERR, (("call", "serde::not-a-sequence", (args[0],), site),)))]
+                out.extend(self.do_inline(n, vs[0], [args[1], ("call", "serde::sequence", (args[0],), site)], st))
+                return out
         body_fn = self.body_for(callee)
         if body_fn is None:
             # x.into() / T::from(x) / x.try_into() / T::try_from(x): the /repo impl the conversion statically dispatches to
@@ -1608,6 +1641,11 @@ class Sym:
         if body_fn is not None and len(st.frames) <= self.max_inline and all(f[1] is not body_fn for f in st.frames) and self.inline(callee, n):
             return self.do_inline(n, body_fn, args, st)
         t = ("call", callee or trait_callee or "?", tuple(args), site)
+        for a in args:
+            if a is not None and a[0] == "closure" and a[1] in self.handed:
+                cnode = self.closures[a[1]][0]
+                if not any(e.kind == "closure" and e.node is cnode for e in st.effects) and self.is_effect("<closure>", list(a[2]), cnode, st):
+                    self.add_effect(st, "closure", "<closure>", list(a[2]), cnode, a)
         if self.is_effect(callee or trait_callee, args, n, st):
             self.add_effect(st, "call", callee or trait_callee, args, n, t)
         # a local `[v; N]` array handed by `&mut` to code that is not expanded holds unknown contents afterwards
@@ -1642,6 +1680,14 @@ class Sym:
         fid = self.uid
         self.inlined.add(fn["path"])
         self.frame_call[fid] = (n, fn)
+        self.call_parent[fid] = self.frame_id(st)
+        # a closure handed to a helper that is expanded in place is evaluated wherever the helper calls it: its creation is no event
+        # of its own (a path on which the helper never calls it has no trace of it).  Should the helper pass it on to code that is
+        # not expanded, the event is put back there (see the end of do_call)
+        for a in args:
+            if a is not None and a[0] == "closure" and a[1] in self.closures:
+                self.drop_creation(a, st)
+                self.handed.add(a[1])
         s = st
         s.frames = s.frames + ((fid, fn),)
         states = [s]
@@ -1708,22 +1754,38 @@ class Sym:
         return out
 
     def type_arg(self, effect, ty):
-        """a type argument written inside an expanded generic helper (`T`), as instantiated by the call that was expanded"""
+        """a type argument written inside an expanded generic helper (`T`), as instantiated by the call that was expanded -- through
+        several levels (a helper that hands its own `T` on to another helper, or to a generic visitor type whose method was expanded)"""
         fid = effect.frame
         for _ in range(6):
-            if fid in self.frame_call or fid not in self.frame_parent:
-                break
-            fid = self.frame_parent[fid]
-        fc = self.frame_call.get(fid)
-        for _ in range(4):
+            for _ in range(6):
+                if fid in self.frame_call or fid not in self.frame_parent:
+                    break
+                fid = self.frame_parent[fid]
+            fc = self.frame_call.get(fid)
             if fc is None or not re.match(r"^[A-Z]\w*$", ty or ""):
                 return ty
             n, fn = fc
             gen = [g["name"] for g in (fn.get("generics") or []) if g.get("kind") != "lifetime"]
             ta = n.get("targs") or []
-            if len(gen) == len(ta) and ty in gen:
-                ty = ta[gen.index(ty)]
-            return ty
+            mapping = {}
+            if len(gen) == len(ta):
+                mapping = dict(zip(gen, ta))
+            im = fn.get("impl") or {}
+            st_s = (im.get("self_ty") or {}).get("s") or ""
+            if ty not in mapping and "<" in st_s:
+                # a method of `impl<T, F> Tr for V<T, F>` expanded for a value of type V<X, Y> named among the call's type arguments
+                head, margs = split_generic(st_s)
+                for t in ta:
+                    h2, a2 = split_generic(t)
+                    if h2 == head and len(a2) == len(margs):
+                        mapping.update({m: a for m, a in zip(margs, a2) if re.match(r"^[A-Z]\w*$", m)})
+            if ty not in mapping:
+                return ty
+            ty = mapping[ty]
+            fid = self.call_parent.get(fid)
+            if fid is None:
+                return ty
         return ty
 
     def resolve(self, st, t):
